@@ -280,6 +280,34 @@ EXTRA_PROGRAMS = [b'a=1 b=2 c=a+b\n', b'foo=1 a=foo b=a\n', b'zz=1 x=zz a=x\n', 
                  [b' '.join(b'v%d=%d' % (i, i) for i in range(n)) + b'\n' for n in (27, 60, 800)]
 
 
+LATE_NAMES = [bytes([c]) for c in range(ord('a'), ord('z') + 1)] + [b'aa', b'ab', b'az', b'ba', b'bb', b'zz', b'za', b'aaa', b'a_', b'_a']
+
+
+def population_programs():
+    """Identifier populations in which names that look like generated short names are first met after K other names
+    (K around every point where the generated names grow by a letter or wrap: 26, 52, 26+26^2 ...), as globals, as
+    fields and as locals/labels; every name is used again later so that 'same name, same output' is observable."""
+    out = []
+    for K in (0, 5, 23, 24, 25, 26, 27, 51, 52, 675, 676, 677, 701, 702, 703, 727):
+        for order in (0, 1):
+            late = LATE_NAMES if order == 0 else LATE_NAMES[::-1]
+            fill = [b'v%d_' % i for i in range(K)]
+            parts = [b'%s=%d' % (n, i) for i, n in enumerate(fill)]
+            parts += [b'%s=%d' % (n, i) for i, n in enumerate(late)]
+            parts += [b'q_=%s+%s' % (late[i], late[-1 - i]) for i in range(0, len(late), 3)]
+            if K:
+                parts.append(b'q_=%s+%s' % (fill[0], fill[-1]))
+            out.append(b' '.join(parts) + b'\n')
+            if K in (0, 25, 26, 676, 702):
+                # the same populations as table fields / method names and as a label with its goto
+                fparts = [b'%s=%d' % (n, i) for i, n in enumerate(fill)]
+                fparts += [b'o_.%s=%d' % (n, i) for i, n in enumerate(late)]
+                fparts += [b'q_=o_.%s q_=o_:%s()' % (late[i], late[-1 - i]) for i in range(0, len(late), 4)]
+                fparts += [b'::%s:: goto %s' % (late[order], late[order])]
+                out.append(b' '.join(fparts) + b'\n')
+    return out
+
+
 def cli_batch(res):
     """The same map properties on what `p8tool luamin` / `p8tool build --lua-minify` write, per configuration."""
     import shutil
@@ -328,6 +356,7 @@ def shards(tier, seed):
     for ki in range(len(keeps)):
         items.append(('bfs', tier, ki, False))
     items.append(('bfs', tier, 0, True))
+    items += [('population', k, 4) for k in range(4)]
     items.append(('bfs', tier, 7, True))
     nid = BOUNDS[tier]['ids']
     step = (nid + 15) // 16
@@ -383,6 +412,14 @@ def run_shard(item):
     elif kind == 'cli':
         cli_batch(res)
         res.sample({'cli': 'p8tool luamin / build --lua-minify x {default, --keep-all-names, --keep-names-from-file}'})
+    elif kind == 'population':
+        for i, src in enumerate(population_programs()):
+            if i % item[2] != item[1]:
+                continue
+            for cfg in c01.CONFIGS:
+                check_program_map(None, src, cfg, res, 'population')
+            res.count('population_programs')
+        res.sample({'population': 'v0_..v{K-1}_ then a..z, aa, ab, az, ba, bb, zz, za, aaa, a_, _a for K around 26, 52, 702', 'K': 26})
     elif kind == 'extra':
         for src in EXTRA_PROGRAMS:
             for cfg in c01.CONFIGS:
